@@ -660,10 +660,12 @@ func (c *Conn) reconnect(ctx context.Context) error {
 	if err := resErr; err != nil {
 		return resErr
 	}
-	c.wireConn = res
 	if !c.state.CompareAndSwap(connStatusReconnecting, connStatusConnected) {
-		panic(errors.Errorf("unexpected error: expected reconnecting but %v", c.state.current))
+		// Close arrived while dialing: drop the fresh wire connection and stay closed.
+		res.Close()
+		return errors.ErrConnectionClosed
 	}
+	c.wireConn = res
 	return nil
 }
 
